@@ -1542,8 +1542,10 @@ class BaseSpaceImpl(*_base_space_impl_base):
         return _to_frame_inner(self.cells, args)
 
     def on_delete(self):
+        self.del_all_itemspaces()
         for cells in self.cells.values():
             cells.clear_all_values(clear_input=True)
+            self.model.clear_obj(cells)     # Node of an uncached cells
             cells.on_delete()
         super().on_delete()
 
